@@ -173,10 +173,30 @@ def real_value(path, fname, kwargs):
     exec(code, ns)
     kw = dict(kwargs)
     kw.update(wrapper="cvxpy", solver=None, verbose=-1)
-    with warnings.catch_warnings():
-        warnings.simplefilter("ignore")
-        out = ns[fname](**kw)
+    # the primal / dual values of every solve are observed from outside (no change to PEPit): a large duality gap
+    # means the numerical solver did not converge, and the returned number is then not a bound to compare with
+    import PEPit.pep as pep_module
+    gaps = []
+    orig = pep_module.PEP.check_feasibility
+
+    def spy(self, wc_value, verbose=1):
+        dual = orig(self, wc_value, verbose=verbose)
+        gaps.append(abs(dual - wc_value) / max(1e-9, abs(dual), abs(wc_value)))
+        return dual
+    pep_module.PEP.check_feasibility = spy
+    try:
+        with warnings.catch_warnings():
+            warnings.simplefilter("ignore")
+            out = ns[fname](**kw)
+    finally:
+        pep_module.PEP.check_feasibility = orig
+    if gaps and max(gaps) > 1e-3:
+        raise SolverInaccurate("relative duality gap %.2e" % max(gaps))
     return out[0], out[1]
+
+
+class SolverInaccurate(Exception):
+    pass
 
 
 def perturb(kwargs, rng):
